@@ -3,6 +3,7 @@ mod codec;
 mod model;
 mod pairs;
 mod replay;
+mod sched;
 mod trace;
 mod views;
 
@@ -110,6 +111,16 @@ fn do_alg<P: PT>(opts: &HashMap<String, String>) -> Value {
     r
 }
 
+fn do_sched<P: PT>(opts: &HashMap<String, String>) -> Value {
+    let seed = opts.get("seed").map(|s| s.parse().unwrap()).unwrap_or(1u64);
+    let runs = opts.get("runs").map(|s| s.parse().unwrap()).unwrap_or(20usize);
+    let path = opts.get("trace").expect("--trace FILE");
+    let mut f = std::io::BufWriter::new(std::fs::File::create(path).unwrap());
+    let r = sched::run::<P>(seed, runs, &mut f);
+    f.flush().unwrap();
+    r
+}
+
 fn main() {
     // panics of the code under test are data; keep stderr quiet
     std::panic::set_hook(Box::new(|_| {}));
@@ -150,6 +161,10 @@ fn main() {
         "alg" => {
             let t = opts.get("type").map(|s| s.as_str()).unwrap_or("u32");
             with_type!(t, do_alg(&opts))
+        }
+        "sched" => {
+            let t = opts.get("type").map(|s| s.as_str()).unwrap_or("u32");
+            with_type!(t, do_sched(&opts))
         }
         "types" => json!(ALL_TYPES),
         _ => {
